@@ -21,9 +21,10 @@
  *     announced length or drop it
  *   - memory: every byte of the ll_l2cap_sdu_buffer object outside receive_buffer_, receive_size_ and receive_buffer_used_ is
  *     unchanged after every call (the padding byte right behind receive_buffer_ included), remaining + used never exceed the
- *     reassembly buffer; the PDUs of the radio are exact-size objects / never written
+ *     reassembly buffer
  *
- * case parameters: CFG (shims/sdu.cpp), K number of PDUs, RXMAX largest PDU of the radio (header, layout overhead and payload)
+ * case parameters: CFG (shims/sdu.cpp), K number of PDUs, RXMAX largest PDU of the radio (header, layout overhead and payload),
+ *                  T0..T3 / Z0..Z3: LLID / payload size of PDU i (-1: symbolic)
  */
 #include "vf.h"
 
@@ -114,6 +115,15 @@ void harness(void)
         i_twice[s] = in_bool();
     }
     unsigned J = (unsigned)in_range(0, mtu + 4 + llo - 1);        /* the SDU byte that is compared */
+    /* case split: LLID (T<i>) and payload size (Z<i>) of PDU i are assigned when >= 0 (copy sizes become constants) */
+    {
+        long ct[MAXK] = { CASE(T0), CASE(T1), CASE(T2), CASE(T3), -1, -1 };
+        long cz[MAXK] = { CASE(Z0), CASE(Z1), CASE(Z2), CASE(Z3), -1, -1 };
+        for (int s = 0; s < k; ++s) {
+            if (ct[s] >= 0) i_llid[s] = (unsigned)ct[s];
+            if (cz[s] >= 0) i_size[s] = llo + (unsigned)cz[s];
+        }
+    }
 
     g_size = vf_sdu_geometry(cfg, 0); g_rb = vf_sdu_geometry(cfg, 1); g_rbsize = vf_sdu_geometry(cfg, 2);
     g_rs = vf_sdu_geometry(cfg, 3); g_ru = vf_sdu_geometry(cfg, 4);
